@@ -56,6 +56,7 @@ pub struct State {
   pub total_sent: u64,
   pub last_fault_at: u64,
   pub log_wire: bool,
+  pub log_sched: bool,
   /// per (src node) datagram transformer hook: returns replacement bytes (fault `foreign parameter injection` etc.)
   pub mangle: Option<Box<dyn FnMut(&mut Ctx, u32, &SocketAddr, &[u8]) -> Option<Vec<u8>>>>,
   pub sent_by_kind: BTreeMap<&'static str, u64>,
@@ -95,6 +96,7 @@ pub fn enter(ctx: &mut Ctx) {
     total_sent: 0,
     last_fault_at: 0,
     log_wire: true,
+    log_sched: std::env::var_os("VERIF_E2_SCHED").is_some(),
     mangle: None,
     sent_by_kind: BTreeMap::new(),
     steps: 0,
@@ -299,8 +301,7 @@ pub fn step(limit: Option<u64>) -> bool {
       }
       match e.kind {
         EnabledKind::PollReady { ready } if ready.len() > 1 => {
-          // mio guarantees neither order nor completeness of a batch: the seed may
-          // hand the thread a permuted non-empty subset of what is ready
+          // one poll call may see only the first few of the ready sources
           choices.push(Choice::Thread(e.tid, Some(ready.iter().map(|r| r.0).collect())));
         }
         _ => choices.push(Choice::Thread(e.tid, None)),
@@ -350,18 +351,30 @@ pub fn step(limit: Option<u64>) -> bool {
         let pick: Option<Vec<SrcId>> = match ready {
           None => None,
           Some(mut r) => with(|st| {
-            // mostly everything in queue order; sometimes a permuted subset
+            // mio 0.6 hands out user-space readiness events in the order in which the
+            // sources became ready (FIFO queue), so causal order between channels is
+            // preserved; what varies with timing is how many of them one poll call
+            // sees.  The seed therefore picks a non-empty PREFIX of the queue.
             if st.ctx.ch.chance(1, 4) {
-              st.ctx.ch.shuffle(&mut r);
               let keep = 1 + st.ctx.ch.index(r.len());
+              if keep < r.len() {
+                st.ctx.count("sched.partial_event_batch");
+              }
               r.truncate(keep);
-              st.ctx.count("sched.partial_or_permuted_event_batch");
               Some(r)
             } else {
               None
             }
           }),
         };
+        if with(|st| st.log_sched) {
+          let name = simcore::thread_states()
+            .into_iter()
+            .find(|t| t.0 == tid)
+            .map(|t| format!("{}@n{} {:?}", t.1, t.2, t.3))
+            .unwrap_or_default();
+          with(|st| st.ctx.log(&format!("run {name} pick={pick:?}")));
+        }
         match simcore::run_thread(tid, pick.as_deref()) {
           Ok(()) => {}
           Err(h) => {
